@@ -32,5 +32,5 @@ def change_observation(ctx):
 
 
 RULES = [trc, infer.particle_collection_helper, infer.smc_init_rule, change_observation, infer.smc_extend_rule, infer.smc_rejuvenate_rule,
-         infer.smc_accessors_rule, infer.smc_resample_rule, infer.rejuvenation_smc_rule]
+         infer.smc_accessors_rule, infer.smc_estimate_rule, infer.smc_resample_rule, infer.rejuvenation_smc_rule]
 FLOOR = 8
